@@ -7,6 +7,9 @@
 #include <cstring>
 #include <string>
 #include <vector>
+#include <thread>
+#include <thread>
+#include <functional>
 #include <map>
 #include <unordered_set>
 #include <functional>
@@ -20,6 +23,15 @@
 #include <time.h>
 
 namespace vf {
+// T plain threads (not an OpenMP team: omp_get_thread_num() is 0 in every one of them, so hidden state indexed by the
+// OpenMP thread number is shared between them, as it is for any caller that brings its own threads), started together.
+template <class F>
+static inline void team(int T, F fn)
+{
+    std::vector<std::thread> th;
+    for (int t = 0; t < T; t++) th.emplace_back([&fn, t]() { fn(t); });
+    for (auto &x : th) x.join();
+}
 
 // ------------------------------------------------------------------------------- RNG
 static inline uint64_t splitmix64(uint64_t &x)
